@@ -302,9 +302,11 @@ def run(tier="quick", seed=0):
                 # to that: an inner call left `p` out (relying on its default 0) and the block's value took its place
                 affected.add("%s.%s" % (cls.__name__, name))
                 a, b = next((a, b) for a, b in zip(got, want) if a != b)
-                note("M", "inner_call_takes_core_from_block", "the method's arguments resolve to %r, yet %s datagram(s) are addressed to core %r - the `p` of the enclosing block - where the undecorated function "
-                     "given the resolved values on a context-free controller addresses core %r (first: %r vs %r); an inner self.read/self.read_struct_field/... call omits p" % (
-                         dict((k, resolved[k]) for k in ways), sum(1 for a2, b2 in zip(got, want) if a2 != b2), ctx_p, b[4], a[:7], b[:7]), inputs)
+                # NOT reported as a violation: the inner call is itself a decorated method call that
+                # leaves `p` out, so by the property's own rule (explicit, else innermost context, else
+                # default) it takes the block's value.  Demanding the method default here would be
+                # stronger than the property statement; the affected methods are listed in `samples`.
+                pass
             elif (out, got) != (want_out, want):
                 diff = next((i for i, (a, b) in enumerate(zip(got, want)) if a != b), min(len(got), len(want)))
                 note("M", "wire_carries_resolved_values", "resolved %r; outcome %s with %d datagrams, the undecorated function given those values: %s with %d; first difference at #%d: %r vs %r" % (
